@@ -118,7 +118,7 @@ def _fam(tier, seed):
     if tier == "quick":
         # n = 2 only where two pre-existing items matter for the operation (about 1.5 min per task)
         return [{"op": op, "n": n} for op in OPS for n in (0, 1)] + \
-            [{"op": op, "n": 2} for op in ("remove", "pop", "insert", "copy", "deepcopy", "init")]
+            [{"op": op, "n": 2} for op in ("remove", "pop", "insert", "copy", "deepcopy", "pickle", "init")]
     return [{"op": op, "n": n} for op in OPS for n in (0, 1, 2, 3) if not (n == 3 and op in ("extend", "insert", "append"))]
 
 
